@@ -400,7 +400,8 @@ def check_locking_deque(run, model, rule_ends, rule_token, rule_bound, rule_mono
                                         % {ast.NotEq: '!=', ast.LtE: '<=', ast.Gt: '>', ast.GtE: '>=', ast.Eq: '=='}.get(cp[0], '?')),
                          node=h.ast, obligation=True)
         # a repair test (tokens < items) is evaluated after the add on every path
-        rep = [t for t, op in lt_tests if op is ast.Lt]
+        # (`tokens < items` and its complement `tokens >= items` ask the same question: either one is the re-test)
+        rep = [t for t, op in lt_tests if op in (ast.Lt, ast.GtE)]
         # a call of a LockingDeque helper whose own first test is tokens < items counts as the repair test
         for n2 in g.nodes:
             if n2.kind in ('entry', 'exit', 'xexit', 'def'):
